@@ -331,6 +331,9 @@ func genBaseSpec(rng *rand.Rand, allowDefault bool) SubSpec {
 			if rng.Intn(12) == 0 {
 				s.Cfg[i] = 15 + rng.Intn(30) // longer than the usual defaults (14, 20, 26)
 			}
+			if rng.Intn(100) == 0 {
+				s.Cfg[i] = 257 + rng.Intn(40) // longer than a trading year and than any default (255)
+			}
 		}
 	case x < 85 || !allowDefault:
 		s.Scale = []int{2, 3, 4, 6, 8}[rng.Intn(5)]
